@@ -28,13 +28,15 @@ def build_case(u):
             names.append(gen.g_oid(u, 2, 10))
         vals.append(gen.g_any_value(u))
     # history: the tested call may be preceded by an ordinary exchange that leaves the session with large boots/time
-    return {"cfg": cfg, "op": op, "driver": driver, "kind": kind, "names": names, "vals": vals, "warmup": u.below(3) == 0}
+    return {"cfg": cfg, "op": op, "driver": driver, "kind": kind, "names": names, "vals": vals, "warmup": u.below(3) == 0,
+            # how many OIDs get_many() asks for is independent of what the reply carries (1: the degenerate single-OID call)
+            "nask": (1, 2, 2, 3, 1, 5, 2, 0)[u.below(8)]}
 
 
 def describe(c):
     return {"cfg": c["cfg"].describe(), "_cfg": gen.cfg_to_json(c["cfg"]), "op": c["op"], "driver": c["driver"], "kind": c["kind"],
             "_names": [list(n) for n in c["names"]], "_tlvs": [v.tlv for v in c["vals"]], "_kinds": [v.kind for v in c["vals"]],
-            "_pys": [({"float": repr(v.py)} if isinstance(v.py, float) else v.py) for v in c["vals"]], "warmup": c.get("warmup", False)}
+            "_pys": [({"float": repr(v.py)} if isinstance(v.py, float) else v.py) for v in c["vals"]], "warmup": c.get("warmup", False), "nask": c.get("nask", 2)}
 
 
 def expected(G, c):
@@ -81,7 +83,8 @@ def execute(G, c):
             return [ag.build_report(cfg, req, req["engine_id"], 7, 1234)]
         return [ag.build_reply(cfg, req, vbs)]
 
-    call = ("get", "1.3.6.1.2.1.1.1.0") if c["op"] == "get" else ("get_many", ["1.3.6.1.2.1.1.1.0", "1.3.6.1.2.1.1.3.0"])
+    ask = ["1.3.6.1.2.1.1.%d.0" % (i + 1) for i in range(c.get("nask", 2))]
+    call = ("get", "1.3.6.1.2.1.1.1.0") if c["op"] == "get" else ("get_many", ask)
     calls = ([("get", "1.3.6.1.2.1.1.1.0")] if warm else []) + [call]
     outs = drivers.run_calls(G, c["driver"], cfg, calls, handler, timeout=0.12 if c["kind"] == "silent" else 5.0)
     if warm and not (outs[0].kind == "ok" and outs[0].value == 1):
@@ -126,7 +129,7 @@ def run(rep, tier):
         rep.case((c["cfg"].describe(), c["op"], c["kind"], tuple(c["names"]), tuple(v.tlv for v in c["vals"])), nt,
                  sample={"cfg": c["cfg"].describe(), "op": c["op"], "driver": c["driver"], "kind": c["kind"],
                          "varbinds": [[rb.oid_text(n), v.kind] for n, v in zip(c["names"], c["vals"])]},
-                 classes=["op:" + c["op"], "kind:" + c["kind"], "driver:" + c["driver"], "nvb:%d" % min(len(c["vals"]), 3),
+                 classes=["op:" + c["op"], "kind:" + c["kind"], "nask:%d" % c.get("nask", 2), "driver:" + c["driver"], "nvb:%d" % min(len(c["vals"]), 3),
                           "ver:" + c["cfg"].version] + ["has:" + k for k in kinds])
 
     n = 4000 if tier == "quick" else 100000
@@ -138,7 +141,7 @@ def replay(rep, case, body=None):
     vals = [gen.Val(k, (float(p["float"]) if isinstance(p, dict) and "float" in p else p), t)
             for k, p, t in zip(case["_kinds"], case["_pys"], case["_tlvs"])]
     c = {"cfg": gen.cfg_from_json(case["_cfg"]), "op": case["op"], "driver": case["driver"], "kind": case["kind"],
-         "names": [tuple(n) for n in case["_names"]], "vals": vals, "warmup": case.get("warmup", False)}
+         "names": [tuple(n) for n in case["_names"]], "vals": vals, "warmup": case.get("warmup", False), "nask": case.get("nask", 2)}
     try:
         execute(G, c)
     except core.Failure as f:
